@@ -18,9 +18,9 @@ Rules (one signature each).  `<path>` is a coarse label of the reply path the *r
 for, computed from the case alone (never from what spyne did): success | stream (generator /
 user-set ctx.out_string) | fault (every error answer, RequestTooLong and unusable
 CONTENT_LENGTH included) | wsdl | wsdl-error (?wsdl with an injected failure of
-build_interface_document, the documented `wsdl_exception` path).  `<Exc>` is the exception class, except that exceptions
-raised by the generated user code are bucketed as user-Fault / user-exception (their class
-is a parameter of the case, not a root cause).
+build_interface_document, the documented `wsdl_exception` path).  `<Exc>` is the exception
+class, except that exceptions raised by the generated user code are bucketed as user-Fault /
+user-exception (their class is a parameter of the case, not a root cause).
 
   C13|escaped|<Exc>|<file:function>|<path>      exception out of the WSGI callable
   C13|escaped-during-body|<Exc>|<where>|<path>  exception out of next()/close() of the iterable
@@ -62,8 +62,9 @@ RULE = ("cases = (protocol pair in {XmlDocument, Soap11, JsonDocument, HttpRpc-G
         "HttpRpc-GET+Xml}, request outcome in {primitive/complex/void success, Iterable generator "
         "(0..n items, raising before/after the first item), user-set ctx.out_string list/generator "
         "of m chunks, 8 Fault classes, 5 non-Fault exceptions, unserialisable return, soft "
-        "validation error, unknown method, malformed body, ?wsdl}, CONTENT_LENGTH in {absent, '', "
-        "n-d, n, n with d extra bytes behind the document, n+d, limit+d, non-numeric}, "
+        "validation error, unknown method, malformed body, ?wsdl, ?wsdl with an injected failure "
+        "of WSDL generation}, CONTENT_LENGTH in {absent, '', 0, -1, n-d, cut inside a UTF-8 "
+        "sequence, n, n with d extra bytes behind the document, n+d, limit+d, non-numeric}, "
         "max_content_length in {0, 1, n-d, n, n+d, 2MiB}, block_length, chunked, abort after k "
         "chunks, wsgiref.validate on/off); grids over the classes are enumerated completely, "
         "Hypothesis draws argument/return values, sizes, d, k on top. One fresh application per "
@@ -82,10 +83,16 @@ ASSUMPTIONS = [
     "wsgiref.validate is the reference reading of PEP 3333 for status/header syntax",
     "a user function assigning ctx.out_string (documented override) is the multi-chunk source; "
     "the document protocols themselves always produce one chunk",
+    "the `wsdl_exception` path is reached by fault injection (build_interface_document replaced "
+    "on the instance); its findings carry the path label wsdl-error",
+    "when an exception escapes the callable only the escape is reported for that case (a missing "
+    "start_response / unclosed context is its consequence); the size-limit rules still apply",
 ]
 EXHAUSTIVE = {
-    "quick": ["grid A (request side): 5 protocol pairs x all outcome classes x 9 CONTENT_LENGTH "
-              "classes x 6 max_content_length classes x block_length {1,7,8192} x chunked {T,F}",
+    "quick": ["grid A (request side): 5 protocol pairs x all outcome classes x 12 CONTENT_LENGTH "
+              "classes {absent, '', 0, n-1, cut inside a UTF-8 sequence, n, n + 5 or 10000 bytes "
+              "behind the document, n+1, limit+1, non-numeric} x max_content_length {0, 1, n-1, n, "
+              "n+1, 2MiB} x block_length {1,7,8192} x chunked {T,F}",
               "grid B (response side): 5 protocol pairs x all outcome classes x chunked {T,F} x "
               "abort k in {0,1,2,3} x CONTENT_LENGTH {n, absent, limit+1} x limit {n, 2MiB}",
               "grid C: 5 protocol pairs x all outcome classes x chunked {T,F} x abort {none,0,1} "
